@@ -759,7 +759,15 @@ class Interp:
             if cur is None:
                 raise OutsideSubset("bare raise outside handler")
             raise PyRaise(cur)
-        exc = self.eval(node.exc, frame)
+        try:
+            exc = self.eval(node.exc, frame)
+        except OutsideSubset:
+            # the *text* of an exception message is not modelled: only its class matters
+            if getattr(self, "lenient_messages", False) and isinstance(node.exc, ast.Call):
+                cls = self.eval(node.exc.func, frame)
+                if isinstance(cls, type) and issubclass(cls, BaseException):
+                    raise PyRaise(cls("<message not modelled>"))
+            raise
         if isinstance(exc, type):
             exc = self.call(exc, [], {})
         raise PyRaise(exc)
@@ -845,7 +853,15 @@ class Interp:
         if isinstance(v, (set, frozenset)):
             if has_sym(v):
                 raise OutsideSubset("iteration over set with symbolic members")
-            return sorted(v, key=repr)  # deterministic across re-executions
+            items = sorted(v, key=repr)  # deterministic across re-executions
+            if getattr(self, "set_order_all", False) and 1 < len(items) <= 4 and self.path is not None:
+                # a set may be iterated in any order: explore every permutation
+                import itertools as _it
+
+                perms = list(_it.permutations(items))
+                k = self.choose([z3.BoolVal(True)] * len(perms), "set iteration order")
+                return list(perms[k])
+            return items
         try:
             return list(v)
         except OutsideSubset:
@@ -857,7 +873,30 @@ class Interp:
         t = z3.simplify(z3.Length(v.t))
         if z3.is_int_value(t):
             return t.as_long()
-        return None
+        # the path condition may fix the length (e.g. after `argument.order != format.order` was refuted)
+        ps = self.path
+        if ps is None or not getattr(self, "infer_lengths", True):
+            return None
+        key = ("len", t.get_id(), len(ps.pc))
+        cache = ps.__dict__.setdefault("_len_cache", {})
+        if key in cache:
+            return cache[key]
+        n = None
+        try:
+            if ps.solver.check() == z3.sat:
+                mv = ps.solver.model().eval(t, model_completion=True)
+                if z3.is_int_value(mv):
+                    cand = mv.as_long()
+                    ps.solver.push()
+                    ps.solver.add(t != cand)
+                    r = ps.solver.check()
+                    ps.solver.pop()
+                    if r == z3.unsat and 0 <= cand <= 16:
+                        n = cand
+        except z3.Z3Exception:
+            n = None
+        cache[key] = n
+        return n
 
     def seq_index(self, v, i):
         ety = v.ty.elem
